@@ -158,7 +158,7 @@ SITE_TYPES = {2: 'sphere', 3: 'capsule', 4: 'ellipsoid', 5: 'cylinder', 6: 'box'
 class World:
   """Engine state after mj_forward plus lazily computed rigid-body kinematics of every body."""
 
-  def __init__(self, lib, m, d, h=1e-5):
+  def __init__(self, lib, m, d, h=None):
     self.lib, self.m, self.d, self.h = lib, m, d, h
     self.E = lib.enums
     self.nbody, self.nv = int(m.nbody), int(m.nv)
@@ -223,9 +223,12 @@ class World:
     second term by a central difference of J(q) qvel along q (+)/(-) h*qvel (error O(h^2) + eps/h)."""
     if self._kin is not None:
       return self._kin
-    lib, m, d, h = self.lib, self.m, self.d, self.h
+    lib, m, d = self.lib, self.m, self.d
     X = np.array(d.xpos, dtype=float)
     V, W = self._body_vel(d)
+    # step of the central difference: the relative truncation error is (h w)^2 / 6 with w the largest angular velocity
+    # of a body (deep chains add up joint rates), the relative round-off eps / (h w): h w = 1e-4 balances both below 2e-9
+    h = self.h = 1e-4 / (1.0 + float(np.max(np.linalg.norm(W, axis=1))) if self.nbody > 1 else 0.0)
     A = np.zeros_like(V)
     AL = np.zeros_like(W)
     if self.nv:
